@@ -198,6 +198,32 @@ def sweeps(quick):
         for a in vals:
             for b in vals:
                 add('COMPARE falsy payloads', [PUSH(t, b), PUSH(t, a), I('COMPARE')])
+    # maps and sets whose stored values are falsy Python objects: a bound key is bound whatever it is bound to
+    for vt, vals in ((T.STRING, ['', 'a']), (T.BOOL, [False, True]), (T.BYTES, [b'', b'\x00']), (T.list_(T.NAT), [[], [1]]), (T.NAT, [0, 1]),
+                     (T.option(T.NAT), [None, ('Some', 0)]), (T.set_(T.NAT), [[], [1]])):
+        mt = T.map_(T.NAT, vt)
+        mv = [(1, vals[0]), (2, vals[1])]
+        for k in (1, 2, 3):
+            for nv in (None, ('Some', vals[0]), ('Some', vals[1])):
+                add('UPDATE map falsy values', [PUSH(mt, mv), PUSH(T.option(vt), nv), PUSH(T.NAT, k), I('UPDATE'), I('DUP'), I('SIZE'), I('SWAP'), PUSH(T.NAT, k), I('GET'), I('PAIR')])
+                add('GET_AND_UPDATE map falsy values', [PUSH(mt, mv), PUSH(T.option(vt), nv), PUSH(T.NAT, k), I('GET_AND_UPDATE'), I('PAIR'), I('DUP'), I('CDR'), I('SIZE'), I('SWAP'), I('PAIR')])
+            add('MEM map falsy values', [PUSH(mt, mv), PUSH(T.NAT, k), I('MEM')])
+    # operands taken out of field-annotated records, then an instruction that may answer None (the model ignores annotations)
+    def ann_pair(t1, v1, t2, v2):
+        return {'prim': 'PUSH', 'args': [{'prim': 'pair', 'args': [dict(T.to_micheline(t1), annots=['%first']), dict(T.to_micheline(t2), annots=['%second', ':ty'])]},
+                                       {'prim': 'Pair', 'args': [P.render(v1, t1, 'readable'), P.render(v2, t2, 'readable')]}]}
+    for sv in ('', 'abc'):
+        for off, ln in ((0, 0), (0, 5), (1, 1), (5, 0), (3, 1)):
+            add('SLICE on an annotated field', [ann_pair(T.STRING, sv, T.NAT, 7), I('CAR'), PUSH(T.NAT, ln), PUSH(T.NAT, off), I('SLICE')])
+            add('SLICE on an annotated field', [ann_pair(T.NAT, 7, T.BYTES, sv.encode()), I('CDR'), PUSH(T.NAT, ln), PUSH(T.NAT, off), I('SLICE')])
+    for iv in (-3, 0, 4):
+        add('ISNAT on an annotated field', [ann_pair(T.INT, iv, T.NAT, 1), I('UNPAIR'), I('ISNAT'), I('PAIR')])
+        add('EDIV on annotated fields', [ann_pair(T.INT, iv, T.NAT, abs(iv)), I('UNPAIR'), I('EDIV')])
+    for a, b in ((5, 3), (3, 5), (0, 0)):
+        add('SUB_MUTEZ on annotated fields', [ann_pair(T.MUTEZ, a, T.MUTEZ, b), I('UNPAIR'), I('SUB_MUTEZ')])
+    add('GET on annotated fields', [ann_pair(T.map_(T.STRING, T.NAT), [('a', 1)], T.STRING, 'zz'), I('UNPAIR'), I('SWAP'), I('GET')])
+    add('SOME / LEFT / CONS on annotated fields', [ann_pair(T.STRING, 's', T.NAT, 1), I('UNPAIR'), I('SOME'), I('SWAP'), I('LEFT', TY(T.INT)), I('PAIR'),
+                                                    ann_pair(T.NAT, 2, T.NAT, 3), I('CAR'), I('NIL', TY(T.NAT)), I('SWAP'), I('CONS'), I('PAIR')])
     # CAST / RENAME no-ops
     add('CAST', [PUSH(T.NAT, 1), I('CAST', TY(T.NAT))])
     add('RENAME', [PUSH(T.NAT, 1), I('RENAME', annots=['@x'])])
